@@ -235,17 +235,95 @@ class LoopSpec:
         self.nonterminating = False     # service loops (sender/receiver): termination is not an obligation
 
 
+
+def _names_in(node):
+    return {n.id for n in ast.walk(node) if isinstance(n, ast.Name)}
+
+
+def _role_candidates(role, fn, loop):
+    """Role patterns over the AST (all return a set of local names):
+    ('aug', k)            x += k / x = x + k in the loop body, k an int constant
+    ('while_names',)      names in the while test
+    ('while_lhs',)        left operand of the comparison that is the while test
+    ('assigned', 'src')   x = <expr> anywhere in the function with ast.unparse(expr) == src (whitespace-insensitive)
+    ('assigned_call', 'f', 'arg')   x = ...f(arg, ...) : callee name ends with f, first argument unparses to arg
+    """
+    out = set()
+    kind = role[0]
+    norm = lambda t: ''.join(t.split())
+    if kind == 'aug' and loop is not None:
+        for st in loop.body:
+            for n in ast.walk(st):
+                if isinstance(n, ast.AugAssign) and isinstance(n.target, ast.Name) and isinstance(n.op, ast.Add) \
+                        and isinstance(n.value, ast.Constant) and n.value.value == role[1]:
+                    out.add(n.target.id)
+                if isinstance(n, ast.Assign) and len(n.targets) == 1 and isinstance(n.targets[0], ast.Name) \
+                        and isinstance(n.value, ast.BinOp) and isinstance(n.value.op, ast.Add):
+                    t = n.targets[0].id
+                    l, r = n.value.left, n.value.right
+                    for a, b in ((l, r), (r, l)):
+                        if isinstance(a, ast.Name) and a.id == t and isinstance(b, ast.Constant) and b.value == role[1]:
+                            out.add(t)
+    elif kind == 'while_names' and isinstance(loop, ast.While):
+        out = _names_in(loop.test)
+    elif kind == 'while_lhs' and isinstance(loop, ast.While):
+        t = loop.test
+        if isinstance(t, ast.Compare) and isinstance(t.left, ast.Name):
+            out.add(t.left.id)
+    elif kind == 'assigned' and fn is not None:
+        for n in _walk_same_scope(fn):
+            if isinstance(n, ast.Assign) and len(n.targets) == 1 and isinstance(n.targets[0], ast.Name) \
+                    and norm(ast.unparse(n.value)) == norm(role[1]):
+                out.add(n.targets[0].id)
+    elif kind == 'assigned_call' and fn is not None:
+        for n in _walk_same_scope(fn):
+            if isinstance(n, ast.Assign) and len(n.targets) == 1 and isinstance(n.targets[0], ast.Name) \
+                    and isinstance(n.value, ast.Call) and n.value.args:
+                if ast.unparse(n.value.func).split('.')[-1] == role[1] and norm(ast.unparse(n.value.args[0])) == norm(role[2]):
+                    out.add(n.targets[0].id)
+    return out
+
+
 class LoopCtx:
-    def __init__(self, engine, env, k, entry, phase='head'):
+    def __init__(self, engine, env, k, entry, phase='head', node=None):
         self.E = engine
         self.env = env
         self.k = k
         self.entry = entry
         self.phase = phase          # 'entry' | 'head' | 'step'
         self.ghost = None           # shared dict between the three evaluations of one loop cut
+        self.node = node            # AST node of the loop (None for the symbolic-iterator rules)
 
     def __getitem__(self, name):
+        if name not in self.env.vars:
+            raise Unsupported('loop contract names local %r which the function no longer has' % name)
         return self.env.vars[name]
+
+    # ---- locals by *role* (robust against renaming): DESIGN 8.2 / 8.6
+    def _resolve(self, name, roles):
+        """Name of the local playing one of the given roles in the function's AST; falls back to `name`."""
+        fn = self.env.func.node if self.env.func is not None else None
+        for role in roles:
+            cands = _role_candidates(role, fn, self.node)
+            if len(cands) == 1:
+                c = next(iter(cands))
+                if c in self.env.vars or self.phase == 'entry':
+                    return c
+        if name in self.env.vars:
+            return name
+        raise Unsupported('loop contract: no local plays role %r (and no local is named %r)' % (roles, name))
+
+    def local(self, name, *roles):
+        n = self._resolve(name, roles)
+        if n not in self.env.vars:
+            raise Unsupported('loop contract: local %r (role %r) is not bound at the loop head' % (n, roles))
+        return self.env.vars[n]
+
+    def set_local(self, name, value, *roles):
+        self.env.vars[self._resolve(name, roles)] = value
+
+    def local_name(self, name, *roles):
+        return self._resolve(name, roles)
 
     @property
     def self(self):
@@ -698,6 +776,11 @@ class Engine:
                 pass
             except Unsupported as u:
                 errors.append('unsupported: %s [path %s]' % (u, ';'.join(self.path.sig)))
+            except KeyError as ke:
+                # a contract reading an attribute / local the code no longer has: stale contract, not a violation
+                import traceback as _tb
+                errors.append('contract out of date (KeyError %s): %s [path %s]'
+                              % (ke, _tb.format_exc().strip().splitlines()[-3].strip()[:200], ';'.join(self.path.sig)))
             except PyExc as e:
                 # the code under contract raised where its contract expects a normal return: a failed obligation
                 model = None
@@ -755,6 +838,9 @@ class Engine:
                         return r
                 if obj.cls.issubclass(EXC['BaseException']) and name == '__cause__':
                     return None
+                if getattr(obj, 'is_shape', False) and name in self.init_assigned(obj.cls):
+                    raise Unsupported("contract out of date: the pre-state shape given for %s lacks attribute %r, which "
+                                      "its __init__ always sets" % (obj.cls.name, name))
                 self.throw('AttributeError', "'%s' object has no attribute '%s'" % (obj.cls.name, name))
             return self._bind(v, obj, owner)
         if isinstance(obj, SuperProxy):
@@ -814,6 +900,24 @@ class Engine:
         if r is not M.NOATTR:
             return r
         self.throw('AttributeError', "'%s' object has no attribute '%s'" % (type(obj).__name__, name))
+
+    def init_assigned(self, cls):
+        """Attribute names assigned unconditionally at the top level of some __init__ in the MRO (self.X = ...)."""
+        cache = getattr(cls, '_init_assigned', None)
+        if cache is not None:
+            return cache
+        out = set()
+        for c in cls.mro:
+            f = c.dict.get('__init__')
+            if isinstance(f, PyFunc) and f.node.args.args:
+                me = f.node.args.args[0].arg
+                for st in f.node.body:
+                    tgts = st.targets if isinstance(st, ast.Assign) else ([st.target] if isinstance(st, ast.AnnAssign) and st.value is not None else [])
+                    for t in tgts:
+                        if isinstance(t, ast.Attribute) and isinstance(t.value, ast.Name) and t.value.id == me:
+                            out.add(t.attr)
+        cls._init_assigned = out
+        return out
 
     def _bind(self, v, obj, owner):
         if isinstance(v, PyFunc):
@@ -1373,16 +1477,16 @@ class Engine:
         tag = '%s#loop%d' % (qual, k)
         entry = self.snapshot(env)
         lghost = {}
-        ctx0 = LoopCtx(self, env, 0, entry, 'entry')
+        ctx0 = LoopCtx(self, env, 0, entry, 'entry', node=node)
         ctx0.ghost = lghost
         for name, e in spec.invariant(ctx0):
             self.prove('%s.inv_entry[%s]' % (tag, name), e)
         mode = self.path.choice(2, 'loop%d' % k)
         kk = self.fresh_int('k.%s' % (k,), lo=0)
-        hctx = LoopCtx(self, env, kk, entry, 'head')
+        hctx = LoopCtx(self, env, kk, entry, 'head', node=node)
         hctx.ghost = lghost
         self.havoc_loop(node, env, spec, hctx)
-        ctx = LoopCtx(self, env, kk, entry, 'head')
+        ctx = LoopCtx(self, env, kk, entry, 'head', node=node)
         ctx.ghost = lghost
         self.path.ghost.setdefault('loops', {})[(qual, k)] = ctx
         for name, e in spec.invariant(ctx):
@@ -1398,7 +1502,7 @@ class Engine:
                 return
             except ContinueSig:
                 pass
-            ctx1 = LoopCtx(self, env, mk_int(I(kk) + 1), entry, 'step')
+            ctx1 = LoopCtx(self, env, mk_int(I(kk) + 1), entry, 'step', node=node)
             ctx1.ghost = lghost
             for name, e in spec.invariant(ctx1):
                 self.prove('%s.inv_preserved[%s]' % (tag, name), e)
